@@ -289,7 +289,8 @@ class _CompxsIO(cccc.Stream):
         if numDelayedFam:
             self._metadata["delayedChi"] = record.rwMatrix(
                 self._metadata["delayedChi"],
-                (self._metadata["numGroups"], numDelayedFam),
+                self._metadata["numGroups"],
+                numDelayedFam,
             )
 
             self._metadata["delayedDecayConstant"] = record.rwList(
